@@ -252,14 +252,29 @@ func runC16(c *Ctx) {
 				loopStarted := false
 				ctxOK := false
 				for _, g := range c.region(fn) {
-					for _, s := range callsTo(g, r.FnLoop) {
+					starts := callsTo(g, r.FnLoop)
+					// pprof.Do(ctx, labels, wc.loop): the loop handed over as a method value
+					allInstrsRaw(g, func(in ssa.Instruction) {
+						if ci, ok := in.(*ssa.Call); ok && calleeName(ci) == "runtime/pprof.Do" {
+							for _, f := range c.funcsOf(ci.Common().Args[2]) {
+								if p.unbound(f) == r.FnLoop {
+									starts = append(starts, ci)
+								}
+							}
+						}
+					})
+					for _, s := range starts {
 						loopStarted = true
 						s := s
-						if !mustPrecedeIP(s, func(x ssa.Instruction) bool { return x == ssa.Instruction(call) }, 0) && reachFromUp(call, func(x ssa.Instruction) bool { return x == ssa.Instruction(s) }, nil) == nil {
+						isCall := func(x ssa.Instruction) bool { return x == ssa.Instruction(call) }
+						isStart := func(x ssa.Instruction) bool { return x == ssa.Instruction(s) }
+						if !mustPrecedeIP(s, isCall, 0) && reachFromUp(call, isStart, nil) == nil {
 							// the loop call neither follows the builder on every path nor is reachable from it: unrelated start
 							continue
 						}
-						if !mustPrecedeIP(s, func(x ssa.Instruction) bool { return x == ssa.Instruction(call) }, 0) {
+						// the builder runs (when configured) before the loop: from the loop start the builder call
+						// is not reachable any more
+						if reachFromUp(s, isCall, nil) != nil {
 							okAll = false
 							c.bad("R16.2", construct, c.ipos(s), "the connection loop can start before the reverse client is installed")
 						}
